@@ -32,7 +32,7 @@ def classify(line):
 
 CFG = dict(
     imports=["From Verif.C44 Require Import Model Spec.", "Open Scope N_scope."],
-    checker="check_case",
+    checker="check_any",
     n=dict(quick=160, thorough=12000),
     shard=40,
     classify=classify,
@@ -44,7 +44,11 @@ CFG = dict(
          "of DESIGN C44 and mirror images + random tail), boundary (empty batches, removals of unknown ids, several "
          "messages for one id in a batch); observed after every apply: activeWlIfaceNameToID, cali-tw-/cali-fw- chains "
          "(admin state, profile), routes per interface, entries of the from/to dispatch chains.  non-trivial = at some "
-         "point two live endpoints claim one interface name; distinct by the message sequence",
+         "point two live endpoints claim one interface name; distinct by the message sequence.  Every tenth case ('stream:order') "
+         "is a cluster of 3-5 identifiers with arbitrary Go strings as components (empty strings, prefixes, bytes >= 0x80, same "
+         "orchestrator / same workload, workload and endpoint ordered in opposite directions, exact duplicates) on which the real "
+         "wlIdsAscending is called for every ordered pair; the matrix must equal the model's and be a strict total order "
+         "(non-trivial there = the cluster has a workload/endpoint cross-over pair)",
     trusted=["Coq 8.16.1 kernel + vm_compute",
              "hand-written model coq/theories/C44/Model.v tied to felix/dataplane/linux/endpoint_mgr.go by this correspondence run "
              "(the implementation's observations must be producible by the model under some iteration order of the pending map)",
@@ -118,7 +122,7 @@ def replay(ctx, path):
     with open(v, "w") as f:
         f.write("From Coq Require Import List NArith ZArith String.\nImport ListNotations.\n")
         f.write("\n".join(CFG["imports"]) + "\n")
-        f.write("Definition c := %s.\n" % line["coq"])
+        f.write("Definition c := match %s with CHist c => c | _ => mkCase [] end.\n" % line["coq"])
         f.write("Set Printing Width 100000.\nSet Printing Depth 1000000.\n")
         f.write("Definition verdict := Eval vm_compute in check_case c.\nPrint verdict.\n")
         f.write("Definition d := Eval vm_compute in diag c.\nPrint d.\n")
